@@ -41,9 +41,50 @@ def returns_of(f: FuncInfo) -> List[ast.Return]:
     return [n for n in walk_local_ordered(f.node) if isinstance(n, ast.Return)]
 
 
+def _is_log_call(e: ast.AST) -> bool:
+    """`log.debug(...)` and friends: not an effect any rule cares about."""
+    return isinstance(e, ast.Call) and isinstance(e.func, ast.Attribute) and isinstance(e.func.value, ast.Name) and e.func.value.id in ('log', 'logger', 'logging')
+
+
+def _chain_expr(body: List[ast.stmt]) -> Optional[ast.AST]:
+    """`if c: return A` ... `return B` as one expression (`A if c else B`, spelled with and/or when A or B is a truth constant)."""
+    body = [st for st in body if not (isinstance(st, ast.Expr) and (isinstance(st.value, ast.Constant) or _is_log_call(st.value)))]
+    if not body:
+        return None
+    st = body[0]
+    if isinstance(st, ast.Return):
+        return st.value if len(body) == 1 else None
+    if isinstance(st, ast.If) and not st.orelse:
+        a = _chain_expr(st.body)
+        b = _chain_expr(body[1:])
+        if a is None or b is None:
+            return None
+        c = st.test
+        neg = ast.UnaryOp(op=ast.Not(), operand=c)
+        if isinstance(a, ast.Constant) and a.value is True and isinstance(b, ast.Constant) and b.value is False:
+            e: ast.AST = c
+        elif isinstance(a, ast.Constant) and a.value is False and isinstance(b, ast.Constant) and b.value is True:
+            e = neg
+        elif isinstance(a, ast.Constant) and a.value is True:
+            e = ast.BoolOp(op=ast.Or(), values=[c, b])
+        elif isinstance(a, ast.Constant) and a.value is False:
+            e = ast.BoolOp(op=ast.And(), values=[neg, b])
+        elif isinstance(b, ast.Constant) and b.value is True:
+            e = ast.BoolOp(op=ast.Or(), values=[neg, a])
+        elif isinstance(b, ast.Constant) and b.value is False:
+            e = ast.BoolOp(op=ast.And(), values=[c, a])
+        else:
+            e = ast.IfExp(test=c, body=a, orelse=b)
+        return ast.copy_location(ast.fix_missing_locations(e), st)
+    return None
+
+
 def single_return_expr(f: FuncInfo) -> ast.AST:
     rs = [r for r in returns_of(f) if r.value is not None]
     if len(rs) != 1:
+        e = _chain_expr(list(f.node.body))  # type: ignore[attr-defined]
+        if e is not None:
+            return e
         raise AnalysisError(f'{f.where()}: expected exactly one `return <expr>`, found {len(rs)}')
     return rs[0].value  # type: ignore[return-value]
 
@@ -175,6 +216,57 @@ def expand(f: FuncInfo, e: ast.AST, depth: int = 4) -> ast.AST:
                 if not any(isinstance(x, ast.Name) and x.id == n.id for x in ast.walk(v)):
                     return T(self.d - 1).visit(_copy.deepcopy(v))
             return n
+
+    return T(depth).visit(_copy.deepcopy(e))
+
+
+def inline_helpers(prog: Any, f: FuncInfo, e: ast.AST, depth: int = 3) -> ast.AST:
+    """Copy of `e` in which every call `self.m(a, ...)` of a method of f's class whose body is a single `return <expr>`
+    (a docstring may precede it) is replaced by that expression with the parameters substituted by the arguments."""
+    me = first_param(f) if f.cls is not None else None
+
+    def one_expr(g: FuncInfo) -> Optional[ast.AST]:
+        body = [st for st in g.node.body if not (isinstance(st, ast.Expr) and (isinstance(st.value, ast.Constant) or _is_log_call(st.value)))]  # type: ignore[attr-defined]
+        if len(body) == 1 and isinstance(body[0], ast.Return) and body[0].value is not None:
+            return body[0].value
+        return None
+
+    class T(ast.NodeTransformer):
+        def __init__(self, d: int) -> None:
+            self.d = d
+
+        def visit_Call(self, c: ast.Call) -> ast.AST:
+            self.generic_visit(c)
+            if self.d <= 0 or me is None or not (isinstance(c.func, ast.Attribute) and isinstance(c.func.value, ast.Name) and c.func.value.id == me):
+                return c
+            g = f.cls.find_method(c.func.attr) if f.cls is not None else None
+            if g is None or c.keywords:
+                return c
+            body = one_expr(g)
+            va = g.node.args.vararg.arg if g.node.args.vararg is not None else None  # type: ignore[attr-defined]
+            npos = len(g.params) - 1 - len(g.node.args.kwonlyargs)  # type: ignore[attr-defined]
+            if any(isinstance(a, ast.Starred) for a in c.args[:npos]):
+                return c
+            if body is None or (len(c.args) != npos if va is None else len(c.args) < npos):
+                return c
+            sub = dict(zip(g.params[1:1 + npos], c.args))
+            extra = list(c.args[npos:])
+            gme = g.params[0]
+
+            class S(ast.NodeTransformer):
+                def visit_Starred(self, n: ast.Starred) -> Any:
+                    if va is not None and isinstance(n.value, ast.Name) and n.value.id == va:
+                        return [_copy.deepcopy(a) for a in extra]
+                    return self.generic_visit(n)
+
+                def visit_Name(self, n: ast.Name) -> ast.AST:
+                    if n.id in sub:
+                        return _copy.deepcopy(sub[n.id])
+                    if n.id == gme:
+                        return ast.Name(id=me, ctx=ast.Load())
+                    return n
+
+            return T(self.d - 1).visit(S().visit(_copy.deepcopy(body)))
 
     return T(depth).visit(_copy.deepcopy(e))
 
